@@ -1,0 +1,29 @@
+//go:build verif
+
+// Contracts for plenctag, checked by /verif/engine (plencvc). This file
+// contains comments only and is compiled only under the verif build tag.
+// go/ast nodes, structtag.Tags and strconv are abstract.
+
+package main
+
+//@ func cmd/plenctag.plencValue
+//@   safety C20
+
+//@ func cmd/plenctag.extractTags
+//@   safety C20
+
+//@ func cmd/plenctag.*config.isExcluded
+//@   safety C20
+
+//@ # the per-struct rewriting step (the function literal handed to ast.Inspect)
+//@ func cmd/plenctag.*config.rewrite$2
+//@   safety C20
+//@   # pass 1: maxPlenc only grows, so it ends at least as large as every index seen
+//@   loop 1 invariant[C20] maxPlenc >= entry_maxPlenc
+//@   loop 1 decreases rangelen - rangeindex
+//@   # pass 2: numbers handed out are taken from a counter that only grows from the pass 1 maximum
+//@   loop 2 invariant[C20] maxPlenc >= entry_maxPlenc
+//@   loop 2 assume maxPlenc < (1 << 62)          # existing indexes and the number of fields are far below the integer range
+//@   loop 2 decreases rangelen - rangeindex
+//@   # each new index is strictly greater than the pass 1 maximum and than every index handed out before it
+//@   atcall strconv.Itoa [C20] arg0 == head_maxPlenc + 1 && arg0 > entry_maxPlenc
